@@ -154,11 +154,23 @@ def run(ctx):
             recs.append(dict(base, ev='cart', y=Y.tolist(), c=cc, ongrid=ok))
             red = miller.reduce_indices(arg)
             recs.append(dict(base, ev='reduce', y=Y.tolist(), red=np.reshape(red, (n, 3)).astype(int).tolist()))
+            # four-index input: the reduced quadruple is the input divided by the gcd of ALL FOUR entries
+            red4 = np.reshape(miller.reduce_indices(X.reshape(shape + (4,))), (n, 4))
+            g4 = np.array([np.gcd.reduce(np.abs(r_)) or 1 for r_ in X])
+            if not np.array_equal(red4 * g4[:, None], X) or any(np.gcd.reduce(np.abs(r_.astype(int))) not in (0, 1) for r_ in red4):
+                ctx.violation('reduce_indices of Miller-Bravais indices is not the input divided by the gcd of all four entries', 'x=%s got %s' % (X[:3].tolist(), red4[:3].tolist()))
             if not np.array_equal(np.reshape(arg, (n, 3)), Y) or not np.array_equal(X[:, 2], -(X[:, 0] + X[:, 1])):
                 ctx.violation('an index conversion modified the array passed to it', str(shape))
             Pl = rng.integers(-5, 6, (n, 3))
             Pl[(Pl == 0).all(axis=1)] = [0, 2, -1]
             nrm = np.reshape(miller.plane_crystal_to_cartesian(Pl.reshape(shape + (3,)), box), (n, 3))
+            # narrow and unsigned integer index arrays (values up to 7 fit every integer type used here)
+            for dt in (np.int8, np.int16, np.uint8):
+                Pd = np.abs(Pl) if dt is np.uint8 else Pl
+                nd = np.reshape(miller.plane_crystal_to_cartesian(Pd.astype(dt).reshape(shape + (3,)), box), (n, 3))
+                nref = np.reshape(miller.plane_crystal_to_cartesian(Pd.astype(np.int64).reshape(shape + (3,)), box), (n, 3))
+                if not np.allclose(nd, nref, rtol=0, atol=1e-12):
+                    ctx.violation('plane normal depends on the integer type of the index array', '%s: hkl=%s got %s expected %s' % (np.dtype(dt).name, Pd[0].tolist(), nd[0].tolist(), nref[0].tolist()))
             V = np.array(v, dtype=float) / Q
             for k in range(n):
                 d = V @ nrm[k]
